@@ -121,6 +121,45 @@ Verdict soundProp(Ctx& c) { return soundWith(c, false); }
 Verdict soundScopingProp(Ctx& c) { return soundWith(c, true); }
 Verdict soundTemplateProp(Ctx& c) { return soundWith(c, false, true); }
 
+// The empty set has the "any" type, on which checkers and evaluators take shortcuts.  A small family of expressions puts the
+// empty set (or something typed like it) into every operand position of the structure-sensitive operators, next to operands
+// of every other shape; whatever the checker accepts must evaluate safely.  Enumerated exhaustively.
+Verdict anyTypeProp(Ctx& c) {
+  static const Gamma G = [] {
+    Gamma g;
+    { Global x; x.name = "X1"; x.isBase = true; x.type = Ty::Set(Ty::Base("X1")); x.value = Val::Set({Val::Int(1), Val::Int(2)}); g.globals.push_back(x); }
+    { Global d; d.name = "D1"; d.type = Ty::Base("X1"); d.value = Val::Int(1); g.globals.push_back(d); }
+    { Global s; s.name = "S1"; s.type = Ty::Set(Ty::Tuple({Ty::Base("X1"), Ty::Base("X1")})); s.value = Val::Set({Val::Tuple({Val::Int(1), Val::Int(2)})}); g.globals.push_back(s); }
+    return g;
+  }();
+  static const std::vector<std::string> empties = {"\xE2\x88\x85", "Pr1(\xE2\x88\x85\xC3\x97X1)", "red(\xE2\x88\x85)", "\xE2\x88\x85\\X1", "X1\\X1", "{\xE2\x88\x85}"};
+  static const std::vector<std::string> others = {"1", "(1,2)", "D1", "X1", "{X1}", "S1", "card(X1)", "\xE2\x88\x85", "(D1,\xE2\x88\x85)"};
+  const std::string E = c.oneof(empties), A = c.oneof(others), B = c.oneof(others);
+  static const std::vector<std::string> forms = {
+    "Fi1[A](E)", "Fi1,2[A,B](E)", "Fi1,2[A](E)", "Fi2,1[A](E)", "Fi1[E](S1)", "Fi1[E](E)",
+    "Pr1(E)", "Pr2,1(E)", "pr1(debool(E))", "red(E)", "card(E)", "debool(E)", "bool(E)", "\xE2\x84\xAC(E)",
+    "E\xC3\x97" "A", "A\xC3\x97" "E", "E\xE2\x88\xAA" "A", "A\\E", "A\xE2\x88\x88" "E", "E\xE2\x88\x88" "A", "E\xE2\x8A\x86" "A", "A=E",
+    "\xE2\x88\x80x\xE2\x88\x88" "E x=A", "D{x\xE2\x88\x88" "E|x=A}", "R{x:=E|x\xE2\x88\xAA" "A}", "R{x:=A|1=2|E}", "I{(x,A)|x:\xE2\x88\x88" "E}", "card(debool(R{x:=S1|1=2|E}))",
+    "{A,E}", "(A,E)", "pr2((A,E))", "debool({E})\xE2\x88\xAA" "A"};
+  std::string text = c.oneof(forms);
+  auto subst = [&](const std::string& key, const std::string& val) { for (size_t p = text.find(key); p != std::string::npos; p = text.find(key, p + val.size())) { const bool idStart = p > 0 && (std::isalnum(static_cast<unsigned char>(text[p - 1])) != 0); const bool idEnd = p + 1 < text.size() && (std::isalnum(static_cast<unsigned char>(text[p + 1])) != 0); if (idStart || idEnd) { p += 1 - val.size(); continue; } text.replace(p, 1, val); } };
+  subst("E", E); subst("A", A); subst("B", B);
+  c.show << "any-type family: " << text;
+  c.exec();
+  LibEnv env(G, false);
+  rl::Auditor audit(env, env.valueContext(), env.astContext());
+  const bool accepted = audit.CheckType(text, rl::Syntax::MATH);
+  c.label(accepted ? "any-type:accepted" : "any-type:rejected");
+  if (!accepted) { CHECK(audit.Errors().HasCriticalErrors(), "reject-without-error", "'" + text + "' rejected without a critical error"); return pbt::pass(); }
+  c.nontrivial = true;
+  const rl::ExpressionType libType = audit.GetType();
+  const Ty reported = fromLibExprType(libType);
+  const auto res = pbt::inChild([&] { return evalAccepted(c, G, text, rl::Syntax::MATH, false, reported, libType, "data"); }, 4);
+  if (res.status == pbt::ChildResult::TIMEOUT || res.status == pbt::ChildResult::STARVED) { c.count("inconclusive-timeout"); return pbt::pass(); }
+  if (res.status == pbt::ChildResult::CRASH) return pbt::fail("crash", "evaluation of accepted '" + text + "' crashed: " + res.crashInfo);
+  return res.verdict;
+}
+
 Verdict binderProp(Ctx& c) {
   TypedGen g(c);
   g.makeContext();
@@ -189,6 +228,7 @@ int main(int argc, char** argv) {
   props.push_back({"accepted_evaluates_safely", soundProp, 2000, 14000, false, false, "generated expressions and near-miss mutants; accepted ones evaluated under 2-3 data contexts"});
   props.push_back({"accepted_with_name_reuse", soundScopingProp, 800, 6000, false, false, "the same with binders re-declaring names of ended scopes (any depth) and one occurrence of a local renamed to another local of the tree; accepted ones evaluated"});
   props.push_back({"template_calls", soundTemplateProp, 800, 6000, false, false, "calls of functions whose parameter types are tuples / sets of tuples / nested sets over shared radicals, three quarters mutated; accepted ones evaluated"});
+  props.push_back({"any_type_operands", anyTypeProp, 0, 0, true, false, "exhaustive: 32 operator forms x 6 spellings of an empty-typed operand x 9x9 sibling operands of every shape; accepted ones evaluated"});
   props.push_back({"binder_confusion", binderProp, 1000, 8000, false, false, "binders of every pattern form over sets of tuples; variable uses swapped; accepted ones evaluated"});
   return pbt::main(argc, argv, "C02", props);
 }
